@@ -673,6 +673,10 @@ class Layer(BaseObject):
             # deleted glyph. skip.
             if glyphName not in glyphSet.contents:
                 continue
+            # a glyph made in memory that was never read from
+            # or written to the file of that name. skip.
+            if glyph._dataOnDisk is None:
+                continue
             modTime = glyphSet.getGLIFModificationTime(glyphName)
             # mod time mismatch
             if modTime != glyph._dataOnDiskTimeStamp:
